@@ -253,10 +253,40 @@ fn main() {
                     rep.sample(|| scn.to_json());
                 }
             }
+            // C04: servers wider than one availability word (128 workers per word)
+            if prop == "C04" && args.tier != "miri" {
+                let widths: &[usize] = if args.tier == "thorough" { &[130, 200, 260, 300, 390, 512] } else { &[130, 260] };
+                for (k, wd) in widths.iter().enumerate() {
+                    if !args.mine(k as u64) {
+                        continue;
+                    }
+                    rep.evaluations += 1;
+                    let rt = if k % 2 == 0 { engine::RtKind::Actix } else { engine::RtKind::Tokio };
+                    let mut out = bp::run_wide(*wd, args.seed ^ *wd as u64, rt, &mut seen);
+                    if let bp::Outcome::Inconclusive(_) = out {
+                        out = bp::run_wide(*wd, args.seed ^ *wd as u64, rt, &mut seen);
+                    }
+                    match out {
+                        bp::Outcome::Held => rep.nontrivial(fnv_str(&format!("wide{wd}"))),
+                        bp::Outcome::Violated(fails) => {
+                            for f in fails {
+                                if f.sig.starts_with("C04") {
+                                    rep.violation(f.sig, f.desc, vh_core::json!({"prop": "C04", "wide_workers": wd}));
+                                } else {
+                                    rep.count("other_property_violations_seen");
+                                }
+                            }
+                        }
+                        bp::Outcome::Inconclusive(why) => rep.inconclusive(&why),
+                    }
+                }
+                rep.add("obs_wide_server_scenarios", seen.wide_scenarios);
+                rep.add("obs_wide_server_releases_checked", seen.wide_releases_checked);
+            }
             rep.rule = "back-pressure scenarios on a real server: workers 1..3 x limit 1..4 (full grid first, then seeded shapes) x {TCP, UDS, TCP+UDS} x {Actix System, plain Tokio} x optional failpoints (send<->inc, dec<->wake, recv<->call, accept<->dispatch, handle_waker) x optional concurrent-release stress; \
                         optionally after a prelude in which one worker died and was replaced (handle list no longer in index order; not for C02); phases: first round (sequential clients), saturate all workers, queue extra clients, release one held connection at a time, partial-set round; after every step the barrier (guard-drop completion + no-op command ping + idle snapshot + pick-up) is reached and the quiescent-point rules are evaluated on the ordered hook log: \
                         C02 shadow in-flight <= limit at every Dispatch and service-call concurrency per worker thread <= limit, nothing dispatched while all are saturated; C03 no connection waits in a backlog while a live worker has a free slot; C04 windows of W dispatches hit W distinct workers while unsaturated, a released slot is refilled on the releasing worker, the available set is covered, and at every quiescent point each live worker's availability bit agrees with its counter in the same snapshot. \
-                        Plus exhaustive probes of the real Counter / guard / Availability types. Distinct = distinct scenario shape; non-trivial = scenario ran to the end with its barriers reached."
+                        C04 also runs servers with 130..512 workers (limit 2): first W dispatches distinct, all saturated after 2W, nothing dispatched while saturated, and a release on a worker index next to a bitset word boundary lets exactly that worker take the queued client. Plus exhaustive probes of the real Counter / guard / Availability types. Distinct = distinct scenario shape; non-trivial = scenario ran to the end with its barriers reached."
                 .into();
             rep.add("obs_quiescent_points", seen.quiescent_points);
             rep.add("obs_quiescent_with_pending_and_no_spare", seen.quiescent_with_pending_and_no_spare);
@@ -302,6 +332,7 @@ fn main() {
                         rep.add("obs_aborted_by_client", seen.aborted_by_client);
                         rep.add("obs_failpoint_delays_fired", seen.failpoint_hits);
                         rep.add("obs_pause_resume_cycles", seen.pause_resume_cycles);
+                        rep.add("obs_prior_fault_preludes", seen.prior_fault_preludes);
                         rep.rule = "real server, workers 1..3 x limit 1..3 x listeners {TCP, UDS, TCP+UDS, TCP+TCP} x {Actix, Tokio}: 2..8 client threads each making 2..11 connections (hold / finish-at-once / abort, random early releases), optional pause+resume in the middle, failpoints on both sides of the worker queue; \
                                     then a barrier-reached quiescent point (nothing accepted is undispatched, no open client closed unserved, unserved clients are explained by backlog + capacity), a burst queued behind the limit, stop (graceful or forced) and join; \
                                     oracles over the ordered log and the client sockets: every cid identified at most once, by an instance of the listener it connected to; accepted = dispatched + dropped; after shutdown every client sees its socket closed; no call after a graceful stop resolved; open-fd count returns to its value before the server started. \
